@@ -436,6 +436,9 @@ func newWorker(id int, layouts []*layout) *worker {
 	must(os.MkdirAll(store, 0o755), "mkdir")
 	must(os.MkdirAll(tmp, 0o755), "mkdir")
 	lg := zerolog.Nop()
+	if os.Getenv("VERIF_C10_DEBUG") != "" {
+		fmt.Fprintf(os.Stderr, "worker %d: start %s\n", id, time.Now().Format("05.000"))
+	}
 	be, err := storage.NewLocalBackend(store, lg)
 	must(err, "storage.NewLocalBackend")
 	db, err := database.New(&database.Config{
@@ -447,6 +450,9 @@ func newWorker(id int, layouts []*layout) *worker {
 		LocalStorageRoot: be.GetBasePath(),
 	}, lg)
 	must(err, "database.New")
+	if os.Getenv("VERIF_C10_DEBUG") != "" {
+		fmt.Fprintf(os.Stderr, "worker %d: database.New done %s\n", id, time.Now().Format("05.000"))
+	}
 	w.arcdb = db
 	h := api.NewDeleteHandler(db, be, &config.DeleteConfig{Enabled: true, ConfirmationThreshold: 10000, MaxRowsPerDelete: 1000000}, nil, filepath.Join(tmp, "upload"), lg)
 	w.app = fiber.New(fiber.Config{DisableStartupMessage: true})
@@ -454,7 +460,14 @@ func newWorker(id int, layouts []*layout) *worker {
 	w.oracle, err = sql.Open("duckdb", "")
 	must(err, "oracle duckdb")
 	w.oracle.SetMaxOpenConns(1)
+	must(w.oracle.Ping(), "oracle ping")
+	if os.Getenv("VERIF_C10_DEBUG") != "" {
+		fmt.Fprintf(os.Stderr, "worker %d: oracle open %s\n", id, time.Now().Format("05.000"))
+	}
 	must(loadOracle(w.oracle, layouts), "oracle load")
+	if os.Getenv("VERIF_C10_DEBUG") != "" {
+		fmt.Fprintf(os.Stderr, "worker %d: oracle loaded %s\n", id, time.Now().Format("05.000"))
+	}
 	return w
 }
 
@@ -637,13 +650,15 @@ func multisetDiff(a, b []string) (onlyA, onlyB []string) {
 // truths asks the oracle DuckDB for the per-row value (T/F/N) of every predicate, many per query.
 func (w *worker) truths(L *layout, rows []*row, es []*expr) [][]byte {
 	out := make([][]byte, len(es))
-	const chunk = 64
+	chunk := 16
+	if n, err := strconv.Atoi(os.Getenv("VERIF_C10_CHUNK")); err == nil && n > 0 {
+		chunk = n
+	}
 	for lo := 0; lo < len(es); lo += chunk {
 		hi := min(lo+chunk, len(es))
 		var cols []string
 		for _, e := range es[lo:hi] {
-			p := e.render()
-			cols = append(cols, fmt.Sprintf("CASE WHEN (%s) IS TRUE THEN 'T' WHEN (%s) IS FALSE THEN 'F' ELSE 'N' END", p, p))
+			cols = append(cols, "("+e.render()+")")
 		}
 		q := fmt.Sprintf("SELECT id, %s FROM %s WHERE id IN (%s) ORDER BY id", strings.Join(cols, ", "), L.table(), idList(rows))
 		rs, err := w.oracle.Query(q)
@@ -651,7 +666,7 @@ func (w *worker) truths(L *layout, rows []*row, es []*expr) [][]byte {
 		n := 0
 		for rs.Next() {
 			var id int
-			vals := make([]string, hi-lo)
+			vals := make([]sql.NullBool, hi-lo)
 			ptrs := []any{&id}
 			for i := range vals {
 				ptrs = append(ptrs, &vals[i])
@@ -661,7 +676,13 @@ func (w *worker) truths(L *layout, rows []*row, es []*expr) [][]byte {
 				must(fmt.Errorf("unexpected id %d", id), "oracle rows")
 			}
 			for i, v := range vals {
-				out[lo+i] = append(out[lo+i], v[0])
+				c := byte('N') // the predicate's value on this row: TRUE, FALSE or NULL
+				if v.Valid && v.Bool {
+					c = 'T'
+				} else if v.Valid {
+					c = 'F'
+				}
+				out[lo+i] = append(out[lo+i], c)
 			}
 			n++
 		}
